@@ -101,7 +101,26 @@ def build_traces(path, tier, seed):
             zcf = pc.get_zero_crossings_array_indices(arg)
             sw0 = pc.get_switched_peak_array_indices(arg)
         elif way == 2:
-            sobj = eqsig.AccSignal(x, 0.01)
+            cls_ = [eqsig.AccSignal, eqsig.Signal][int(rng.integers(2))]
+            if rng.integers(2) and n >= 2:
+                # a signal object that was analysed while it held ANOTHER record, and whose values were then changed through
+                # the public API (replaced / an increment added / filtered and replaced): the wrappers see the current record
+                other = rand_series(rng, n if rng.integers(2) else int(rng.integers(2, 60)))
+                sobj = cls_(other, 0.01)
+                _ = (pc.get_zero_crossings_indices(sobj), pc.get_switched_peak_indices(sobj), pc.get_peak_indices(sobj))
+                hist = int(rng.integers(3))
+                if hist == 0 or len(other) != n:
+                    sobj.reset_values(x)
+                elif hist == 1:
+                    sobj.add_series(x - other)
+                else:
+                    sobj.remove_poly(1)
+                    _ = pc.get_switched_peak_indices(sobj)
+                    sobj.reset_values(x.copy())
+                if not np.array_equal(np.asarray(sobj.values, dtype=float), x):
+                    sobj.reset_values(x)          # (the increment rounds: the object must hold exactly x)
+            else:
+                sobj = cls_(x, 0.01)
             zcf = pc.get_zero_crossings_indices(sobj)
             sw0 = pc.get_switched_peak_indices(sobj) if tid % 2 else pc.get_switched_peak_indices(x)
         else:
